@@ -71,6 +71,7 @@ def nthIt (a : List String) : String :=
   | [some n, some approx, some capprox, some lg] =>
     if !nthInRange n then nthItWalkStr (nthPrimeCpp (nthItEnv #[] approx capprox lg) n) else
     let walkRegime := n.toNat ≥ 3315
+    if walkRegime && approx < 0 then s!"bad:approx={approx}<0" else   -- outside `Contracts.approx_range`: reported, never skipped
     if walkRegime && !nthItInBound n approx capprox then "ERR:model-bound" else
     let piArr := if walkRegime then #[] else (NthOracle.build Gen.nthPrimeMaxCached).piArr
     match nthPrimeCpp (nthItEnv piArr approx capprox lg) n with
